@@ -100,6 +100,8 @@ class SimDisk:
         self.kinds_per_save = []
         self.renamed = False
         self.bufsize = 8192
+        self.interrupt_read = False    # the next read of the cache file is interrupted
+        self.interrupted = False
 
     # called by the harness around each save_cache invocation
     def begin_save(self):
@@ -150,6 +152,10 @@ class SimDisk:
             return f
         if self.unreadable and os.path.abspath(str(file)) == self.cache_path:
             raise PermissionError(13, "injected: Permission denied", str(file))
+        if self.interrupt_read and os.path.abspath(str(file)) == self.cache_path:
+            self.interrupt_read = False
+            self.interrupted = True
+            raise KeyboardInterrupt()       # Ctrl-C / SIGINT while the file is read
         return io.open(file, mode, *a, **kw)
 
     def move(self, src, dst, *a, **kw):
@@ -371,7 +377,7 @@ def gen_workload(tape):
         op = tape.pick(["save", "populate", "restart_clean", "restart_crash",
                         "load", "find", "corrupt", "save", "populate_some",
                         "corrupt", "set_coverage", "remove_file", "corrupt",
-                        "populate_fault"], "op")
+                        "populate_fault", "restart_interrupted"], "op")
         o = {"op": op}
         if op in ("corrupt", "save"):
             o["same_tick"] = tape.flag("same_tick", 1, 2)
@@ -804,6 +810,51 @@ class Exec:
             self.atexit.handlers = []
             self.fs = self._construct()
         elif kind == "restart_crash":
+            self.atexit.handlers = []
+            self.fs = self._construct()
+        elif kind == "restart_interrupted":
+            # a new interpreter starts, the constructor is interrupted (SIGINT)
+            # while it reads the cache file, the interpreter shuts down and
+            # runs its at-exit handlers: the file must still be what it was
+            self.atexit.handlers = []
+            self._discard_foreign_cache()
+            before = None
+            if os.path.isfile(self.cache) and not self.disk.unreadable:
+                with open(self.cache, "rb") as f:
+                    before = f.read()
+            self.disk.interrupt_read = True
+            self.disk.interrupted = False
+            try:
+                self.new_fileset()
+            except KeyboardInterrupt:
+                pass
+            except Exception as e:  # noqa
+                self.V.append(_viol("C15/constructor-exception",
+                                    f"{type(e).__name__}: {e}"[:300]))
+            self.disk.interrupt_read = False
+            if self.disk.interrupted:
+                self.faults["interrupt_while_loading"] = \
+                    self.faults.get("interrupt_while_loading", 0) + 1
+                self.probe("constructor_interrupted_while_loading")
+                for func, args, kwargs in reversed(self.atexit.handlers):
+                    try:
+                        func(*args, **kwargs)
+                    except Exception:  # noqa: atexit prints and goes on
+                        pass
+                after = None
+                if os.path.isfile(self.cache):
+                    with open(self.cache, "rb") as f:
+                        after = f.read()
+                if before is not None and after != before:
+                    self.nontrivial = True
+                    self.V.append(_viol(
+                        "C15/interrupted-load/cache-file-changed",
+                        f"the constructor was interrupted while reading the cache "
+                        f"file ({len(before)} bytes); after interpreter shutdown the "
+                        f"file holds {None if after is None else len(after)} bytes"))
+                    self.saved_bytes = self.saved_snap = None
+                elif before is not None and _parse_doc(before):
+                    self.nontrivial = True
             self.atexit.handlers = []
             self.fs = self._construct()
         elif kind == "load":
